@@ -782,7 +782,7 @@ def stream_backup(ctx, n=None, with_model=True, only=None):
                     'near-misses, targets with no / several / leading dots and sub-directories, absent targets; '
                     'non-trivial = target present and first backup name taken; distinct by case')
     cases = only if only is not None else gen_backup_cases(ctx.sub_rng('backup'), n or ctx.n(120, 2500))
-    res = run_chunks(ctx, 'c14_backup.py', cases, ctx.n(4, 16))
+    res = run_chunks(ctx, 'c14_backup.py', cases, ctx.n(2, 16))
     items, icases, ires = [], [], []
     for c, r in zip(cases, res):
         present = c['target'] in c['files']
@@ -1080,7 +1080,7 @@ def stream_history(ctx, n=None, with_model=True, only=None):
     cases = load_corpus('history') if only is None else list(only)
     for _ in range((n or ctx.n(48, 800)) if only is None else 0):
         cases.append(gen_history_case(rng, rng.randint(*ctx.n((5, 10), (8, 25)))))
-    res = run_chunks(ctx, 'c14_history.py', cases, ctx.n(12, 16))
+    res = run_chunks(ctx, 'c14_history.py', cases, ctx.n(8, 16))
     items, imeta = [], []
     nsteps = 0
     for c, r in zip(cases, res):
@@ -1202,14 +1202,15 @@ def stream_toml(ctx, n=None, with_model=True, only=None):
         mode = 'ascii' if rng.random() < 0.8 else 'any'
         cases.append(assignment(lambda prm: admissible_value(rng, prm, algos, mode)
                                 if rng.random() < 0.85 else prm['default'][:2]))
-    res = run_chunks(ctx, 'c14_toml.py', cases, ctx.n(4, 16), wrap=lambda ch: {'mode': 'roundtrip', 'cases': ch})
+    res = run_chunks(ctx, 'c14_toml.py', cases, ctx.n(2, 16), wrap=lambda ch: {'mode': 'roundtrip', 'cases': ch})
     items, icases, ires = [], [], []
     how = 'Parameters(); set_value for every entry of the witness; dump_file(f); Parameters().read_file(f); compare get_value'
     dflt_of = {(prm['name'], prm['section']): prm['default'][:2] for prm in params}
     for c, r in zip(cases, res):
         st.record(c, nontrivial=any(a['v'][:2] != dflt_of.get((a['name'], a['section'])) for a in c))
         if not r.get('ok'):
-            ctx.violation(f'C14/toml/{r.get("stage", "set")}-failed', 'an admissible parameter set could not be written / read back: '
+            stage = {None: 'set_value', 'set': 'dump_file', 'dump': 'read_file', 'read': 'get_value'}.get(r.get('stage'), 'run')
+            ctx.violation(f'C14/toml/{stage}-failed', f'an admissible parameter set could not be written / read back ({stage}): '
                           f'{r.get("exc")}: {r.get("msg")}', c, 'the same values', r, how)
             continue
         bad = [(a['name'], a['v'][:2], got[:2]) for a, got in zip(c, r['values']) if a['v'][:2] != got[:2]]
@@ -1339,7 +1340,7 @@ def stream_reports(ctx, n=None, with_model=True, only=None):
     cases = load_corpus('reports') if only is None else list(only)
     for _ in range((n or ctx.n(64, 1600)) if only is None else 0):
         cases.append({'spec': gen_result_spec(rng), 'only_robust': rng.random() < 0.5, 'robust_std_err': rng.random() < 0.5})
-    res = run_chunks(ctx, 'c14_reports.py', cases, ctx.n(8, 16), wrap=lambda ch: {'mode': 'reports', 'cases': ch})
+    res = run_chunks(ctx, 'c14_reports.py', cases, ctx.n(4, 16), wrap=lambda ch: {'mode': 'reports', 'cases': ch})
     items, icases, ires = [], [], []
     how = ('build the results object from the witness spec (lib/impl/c14_fake.make_results) and render it: '
            './check C14 --replay <this file>')
@@ -1423,7 +1424,7 @@ def stream_pickle(ctx, n=None, only=None):
         sp = gen_result_spec(rng, model=rng.choice(['pk', 'my model', 'a~00']))
         sp['hessian'] = rng.random() < 0.85
         cases.append({'spec': sp})
-    res = run_chunks(ctx, 'c14_reports.py', cases, ctx.n(8, 16), wrap=lambda ch: {'mode': 'pickle', 'cases': ch})
+    res = run_chunks(ctx, 'c14_reports.py', cases, ctx.n(4, 16), wrap=lambda ch: {'mode': 'pickle', 'cases': ch})
     how = 'make_results(spec).write_pickle(); bioResults(pickle_file=name): ./check C14 --replay <this file>'
     for c, r in zip(cases, res):
         st.record(c, nontrivial=c['spec'].get('hessian', True))
